@@ -479,6 +479,21 @@ pub fn c_blank_b<S: Src, const N: usize>(s: &mut S) {
     chk!(s, spec_base(&d.storage, N + j) == buf[j], "extend after blank appends the items");
 }
 
+/// BOUNDED (two CONCRETE reads, symbolic nothing): from_acgt_bytes_hashn leaves ACGT untouched, substitutes only valid
+/// bases, and the substitute at a position does not depend on earlier Ns (function of (read name, position)).
+pub fn c_hashn_concrete<S: Src>(s: &mut S) {
+    s.cover(true);
+    let name = [b'r', b'1'];
+    let a = DnaString::from_acgt_bytes_hashn(b"NCNGN", &name);
+    let b = DnaString::from_acgt_bytes_hashn(b"ACAGN", &name);
+    let c = DnaString::from_acgt_bytes_hashn(b"NCNGN", &name);
+    chk!(s, a.len == 5 && b.len == 5, "hashn: one base per byte");
+    chk!(s, spec_base(&a.storage, 1) == 1 && spec_base(&a.storage, 3) == 2, "hashn leaves ACGT untouched");
+    chk!(s, spec_base(&a.storage, 4) == spec_base(&b.storage, 4), "hashn: the substitute at a position does not depend on earlier Ns");
+    chk!(s, a.storage[0] == c.storage[0], "hashn is deterministic");
+}
+
+harness!(d_hashn_concrete, c_hashn_concrete, unwind 40);
 harness!(d_get_kmer_b_k64, c_get_kmer_b::<crate::kmer::Kmer64, _>, unwind 40);
 harness!(d_get_kmer_b_k48, c_get_kmer_b::<crate::kmer::Kmer48, _>, unwind 40);
 harness!(d_get_kmer_b_k32, c_get_kmer_b::<crate::kmer::Kmer32, _>, unwind 40);
@@ -501,6 +516,7 @@ pub fn replay(name: &str, s: &mut crate::verif::src::RSrc) -> bool {
         "d_extend_b_32_1" => c_extend_b::<_, 32, 1>(s),
         "d_rc_reverse_b_33" => c_rc_reverse_b::<_, 33>(s),
         "d_rc_reverse_b_64" => c_rc_reverse_b::<_, 64>(s),
+        "d_hashn_concrete" => c_hashn_concrete(s),
         "d_get_kmer_b_k64" => c_get_kmer_b::<crate::kmer::Kmer64, _>(s),
         "d_get_kmer_b_k48" => c_get_kmer_b::<crate::kmer::Kmer48, _>(s),
         "d_get_kmer_b_k32" => c_get_kmer_b::<crate::kmer::Kmer32, _>(s),
